@@ -1,4 +1,6 @@
 fn main() {
+    // verification hook: declare the guard cfg so that the unexpected-cfg lint stays quiet
+    println!("cargo:rustc-check-cfg=cfg(similari_verif)");
     #[cfg(feature = "python")]
     pyo3_build_config::add_extension_module_link_args();
 }
